@@ -30,6 +30,8 @@ type Case struct {
 	// ContentLength: the request announces its body size (as clients with a
 	// fixed-size body do); handler side only.
 	ContentLength bool `json:"content_length,omitempty"`
+	// LieCL: the peer announces this Content-Length, far more than it sends
+	LieCL int64 `json:"lie_cl,omitempty"`
 }
 
 // textFor returns a text such that the encoded ping message has exactly size bytes (if possible).
@@ -286,7 +288,7 @@ func runHandler(c Case, p plan, measure bool) outcome {
 	var o outcome
 	log := &prog.HLog{}
 	hp := &prog.HandlerProg{Drain: true, Resp: &prog.Msg{N: 1}, PropagateRecvErr: true}
-	cfg := prog.Config{HComp: []string{"deflate", "zlib", "toy"}, HReadMax: c.N}
+	cfg := prog.Config{HComp: []string{"deflate", "zlib", "toy", "rle"}, HReadMax: c.N}
 	h := prog.NewHandler(c.Kind, hp, log, cfg.HandlerOptions()...)
 	req := refwire.BuildRequest(&refwire.ReqSpec{Protocol: c.Protocol, Kind: c.Kind, Codec: c.Codec})
 	if c.Encoding != "" && !(p.unaryCT && p.msgs[0].flags == 0) {
@@ -298,7 +300,7 @@ func runHandler(c Case, p plan, measure bool) outcome {
 		runtime.GC()
 		runtime.ReadMemStats(&before)
 	}
-	rec := memnet.Serve(h, "POST", prog.Procedure(c.Kind), req.Header, bytes.NewReader(p.body), memnet.ServeOpts{HaveContentLength: c.ContentLength, ContentLength: int64(len(p.body))})
+	rec := memnet.Serve(h, "POST", prog.Procedure(c.Kind), req.Header, bytes.NewReader(p.body), memnet.ServeOpts{HaveContentLength: c.ContentLength || c.LieCL > 0, ContentLength: max(int64(len(p.body)), c.LieCL)})
 	if measure {
 		runtime.ReadMemStats(&after)
 		o.allocated = after.TotalAlloc - before.TotalAlloc
@@ -339,7 +341,8 @@ func runClient(c Case, p plan, measure bool) outcome {
 		body = refwire.AppendFrame(body, refwire.FlagConnectEnd, []byte("{}"))
 	}
 	sc := memnet.NewScript(200, hdr, bytes.NewReader(body), trailer)
-	cfg := prog.Config{Protocol: c.Protocol, Codec: c.Codec, Kind: c.Kind, CAccept: []string{"deflate", "zlib", "toy"}, CReadMax: c.N}
+	sc.RespContentLength = c.LieCL
+	cfg := prog.Config{Protocol: c.Protocol, Codec: c.Codec, Kind: c.Kind, CAccept: []string{"deflate", "zlib", "toy", "rle"}, CReadMax: c.N}
 	cp := &prog.ClientProg{Msgs: []prog.Msg{{N: 1}}}
 	if c.Kind == prog.Bidi {
 		cp.Ops = []prog.COp{{Op: "send", Msg: &prog.Msg{N: 1}}, {Op: "closereq"}, {Op: "recvall"}, {Op: "closeresp"}}
@@ -439,7 +442,7 @@ func gen(t *rapid.T) Case {
 		Codec:    rapid.SampledFrom(prog.Codecs).Draw(t, "codec"),
 		Kind:     rapid.SampledFrom(prog.Kinds).Draw(t, "kind"),
 	}
-	c.N = rapid.OneOf(rapid.SampledFrom([]int{16, 20, 64, 511, 512, 513, 1024, 4096, 65536}), rapid.IntRange(14, 3000), rapid.SampledFrom([]int{1 << 31, 1<<32 - 1, 1 << 32, 1<<32 + 16, 1 << 40, 1<<62 + 5})).Draw(t, "n")
+	c.N = rapid.OneOf(rapid.SampledFrom([]int{16, 20, 64, 511, 512, 513, 1024, 4096, 65536, 100000, 1 << 20}), rapid.IntRange(14, 3000), rapid.SampledFrom([]int{1 << 31, 1<<32 - 1, 1 << 32, 1<<32 + 16, 1 << 40, 1<<62 + 5})).Draw(t, "n")
 	if c.Dir == "client" && c.Protocol == "grpcweb" && c.N < 20 {
 		// the 16-byte trailer frame of the scripted response is itself subject
 		// to the limit (not a message: grey zone, kept out of the domain)
@@ -452,7 +455,9 @@ func gen(t *rapid.T) Case {
 	}
 	switch c.Probe {
 	case "bomb", "bomb1", "okcomp":
-		c.Encoding = rapid.SampledFrom([]string{"gzip", "deflate", "zlib"}).Draw(t, "encoding")
+		// ("rle": a user-registered algorithm with an unbounded ratio — the
+		// bomb is a dozen bytes on the wire)
+		c.Encoding = rapid.SampledFrom([]string{"gzip", "deflate", "zlib", "rle", "rle"}).Draw(t, "encoding")
 	case "fatwire":
 		c.Encoding = rapid.SampledFrom([]string{"toy", "gzip", "zlib"}).Draw(t, "encoding")
 	default:
@@ -483,8 +488,20 @@ func TestAlloc(t *testing.T) {
 		for _, dir := range []string{"handler", "client"} {
 			for _, protocol := range prog.Protocols {
 				for _, kind := range []string{prog.Unary, prog.Bidi} {
-					for _, probe := range []string{"n", "hugebomb", "lie-long", "lie-max", "big", "flagged-big", "flagged-lie"} {
+					for _, probe := range []string{"n", "hugebomb", "lie-long", "lie-max", "big", "flagged-big", "flagged-lie", "lie-content-length", "lie-content-length-huge"} {
 						c := Case{Dir: dir, Protocol: protocol, Codec: "proto", Kind: kind, N: N, Probe: probe, Encoding: "gzip"}
+						lieCL := strings.HasPrefix(probe, "lie-content-length")
+						if lieCL {
+							// a small acceptable message under a Content-Length of 8 MiB − 1 resp. 2 GiB
+							if !(protocol == "connect" && kind == prog.Unary) {
+								continue
+							}
+							c.Probe, c.Encoding = "small", ""
+							c.LieCL = 8<<20 - 1
+							if probe == "lie-content-length-huge" {
+								c.LieCL = 1 << 31
+							}
+						}
 						var p plan
 						if probe == "hugebomb" {
 							// decompresses to 64N + 32 MiB of one repeated byte
@@ -528,7 +545,7 @@ func TestAlloc(t *testing.T) {
 							fmt.Printf("VIOLATION property=C09 replay=%s\n", path)
 							t.Fatalf("C09/alloc violated: %v", err)
 						}
-						if probe != "n" && !o.failed {
+						if probe != "n" && !lieCL && !o.failed {
 							t.Fatalf("HARNESS: probe %s not refused", probe)
 						}
 						if len(samples) < 4 {
@@ -539,7 +556,7 @@ func TestAlloc(t *testing.T) {
 			}
 		}
 	}
-	pbt.RecordBulk("C09", "alloc", "N ∈ {4 KiB, 64 KiB, 1 MiB} × {handler, client} × 3 protocols × {unary, bidi} × {message of exactly N, gzip bomb decompressing to 64N+32 MiB, prefix declaring 4N+1000, prefix declaring 2^32−1, 8N+100000 plain, 4N+1000 bytes under an end-of-stream/trailer flag}: runtime.MemStats.TotalAlloc delta around one call must stay ≤ 12·N + 4 MiB (the constant covers one-off compressor state ≈ 0.8 MiB; a limit that stopped working would show ≥ 64·N + 32 MiB for the bomb and ≥ 4N for lying prefixes only if the bytes were actually buffered); every case is non-trivial", total, total, true, samples...)
+	pbt.RecordBulk("C09", "alloc", "N ∈ {4 KiB, 64 KiB, 1 MiB} × {handler, client} × 3 protocols × {unary, bidi} × {message of exactly N, gzip bomb decompressing to 64N+32 MiB, prefix declaring 4N+1000, prefix declaring 2^32−1, 8N+100000 plain, 4N+1000 bytes under an end-of-stream/trailer flag, and for unary Connect a small message under a Content-Length of 8 MiB−1 resp. 2 GiB}: runtime.MemStats.TotalAlloc delta around one call must stay ≤ 12·N + 4 MiB (the constant covers one-off compressor state ≈ 0.8 MiB; a limit that stopped working would show ≥ 64·N + 32 MiB for the bomb and ≥ 4N for lying prefixes only if the bytes were actually buffered); every case is non-trivial", total, total, true, samples...)
 }
 
 func TestReplay(t *testing.T) { pbt.ReplayMain(t, pbt.Replayer(spec)) }
